@@ -184,6 +184,23 @@ def check(case):
             want = torch.tensor([F[idx[b], idx[(b + d) % Bn]] for b in range(Bn)], dtype=torch.double)
             ok = ok or bool(torch.all((out - want).abs() <= 1e-9 * (1 + want.abs())))
         require(ok, "pairing", f"within a batch each sample must be paired with a cyclic neighbour (A={A})", got=out.tolist())
+    # shared object: one region array (sites counted from the end: -1 = last site) handed to observables that are used with two states of
+    # different size; the caller's array is never rewritten and always means "the last site" of the state at hand
+    neg = np.array([-1], dtype=np.int64)
+    o_neg = SWAP(neg)
+    v_a = o_neg.apply(state, batch).double()
+    v_b = SWAP([n - 1]).apply(state, batch).double()
+    from qucumber.nn_states import PositiveWaveFunction as _PW
+    torch.manual_seed(7)
+    st2 = _PW(n + 1, 2, gpu=False)
+    b2 = R.rows_from_indices([(3 * i + 1) % (2 ** (n + 1)) for i in range(5)], n + 1)
+    w_a = SWAP(neg).apply(st2, b2).double()
+    w_a2 = o_neg.apply(st2, b2).double()
+    w_b = SWAP([n]).apply(st2, b2).double()
+    require(neg.tolist() == [-1], "region-array-rewritten", "SWAP rewrote the caller's region array")
+    require(bool(torch.all((v_a - v_b).abs() <= 1e-12 * (1 + v_b.abs()))) and bool(torch.all((w_a - w_b).abs() <= 1e-12 * (1 + w_b.abs()))) and
+            bool(torch.all((w_a2 - w_b).abs() <= 1e-12 * (1 + w_b.abs()))), "region-from-the-end",
+            "a region given as [-1] (last site) does not give the last site's value for every state it is used with")
     # lifecycle: ONE observable object, evaluated, then its public region attribute re-assigned, evaluated again (region after region)
     roam = SWAP(regions[-1])
     roam.apply(state, batch)
